@@ -31,7 +31,8 @@ CONSTANTS
   MaxStart,       \* number of StartAsync calls
   ParentCancels,  \* BOOLEAN: may the parent context be cancelled
   Presents,       \* set of sets of non-nil functions, e.g. {{"start","run","stop"}}
-  RunMode,        \* "any": the running function returns whenever it likes
+  RunModes,       \* set of kinds of running function (sv.mode is chosen from it initially):
+                  \* "any": NewBasicService - the running function returns whenever it likes
                   \* "idle": NewIdleService - returns nil once the context is done
                   \* "timer": NewTimerService - nil once the context is done, an iteration error any time
   GuardNilCancel  \* FALSE: StopAsync as it is in the code (calls b.serviceCancel() even when it is nil)
@@ -57,11 +58,11 @@ Ev(to, from, e) == <<to, from, e>>
 VARIABLE sv
 vars == <<sv>>
 
-InitRec(present) ==
-  [ state |-> "New", failure |-> "none", cancelFn |-> "nil", ctxDone |-> FALSE, parentDone |-> FALSE,
+InitRec(present, mode) ==
+  [ mode |-> mode, state |-> "New", failure |-> "none", cancelFn |-> "nil", ctxDone |-> FALSE, parentDone |-> FALSE,
     runCh |-> 0, termCh |-> 0,                 \* number of close() calls on the two waiter channels
     present |-> present,
-    mpc |-> "none", merr |-> "none", mfrom |-> "Starting",
+    mpc |-> "none", merr |-> "none", mfrom |-> "Starting", iters |-> 0,
     fnlog |-> <<>>, startOK |-> "na", stopCtx |-> "na", stopArg |-> "na", errs |-> <<>>,
     thist |-> <<>>,                            \* every transition made, in order
     switchPanic |-> FALSE, sendClosed |-> FALSE,
@@ -136,11 +137,15 @@ MCallRun(s) == IF "run" \in s.present
 
 RunFnReturnEn(s, e) ==
   /\ s.mpc = "inRun"
-  /\ CASE RunMode = "any"   -> e \in {"none", "erun"}
-       [] RunMode = "idle"  -> e = "none" /\ s.ctxDone
-       [] RunMode = "timer" -> (e = "none" /\ s.ctxDone) \/ e = "erun"
+  /\ CASE s.mode = "any"   -> e \in {"none", "erun"}
+       [] s.mode = "idle"  -> e = "none" /\ s.ctxDone
+       [] s.mode = "timer" -> (e = "none" /\ s.ctxDone) \/ e = "erun"
 RunFnReturn(s, e) == [s EXCEPT !.mpc = "toStop", !.mfrom = "Running", !.merr = e,
                                !.errs = IF e = "none" THEN @ ELSE Append(@, e)]
+
+\* one iteration of a timer service that returns nil (an iteration error is RunFnReturn(s, "erun"))
+TickEn(s) == s.mode = "timer" /\ s.mpc = "inRun" /\ ~s.ctxDone /\ s.iters < 2
+Tick(s) == [s EXCEPT !.iters = @ + 1]
 
 MToStoppingEn(s) == s.mpc = "toStop"
 MToStopping(s) ==
@@ -242,6 +247,7 @@ aMAfterStart      == MAfterStartEn(sv) /\ sv' = MAfterStart(sv)
 aMToRunning       == MToRunningEn(sv) /\ sv' = MToRunning(sv)
 aMCallRun         == MCallRunEn(sv) /\ sv' = MCallRun(sv)
 aRunFnReturn(e)   == RunFnReturnEn(sv, e) /\ sv' = RunFnReturn(sv, e)
+aTick             == TickEn(sv) /\ sv' = Tick(sv)
 aMToStopping      == MToStoppingEn(sv) /\ sv' = MToStopping(sv)
 aMCancel          == MCancelEn(sv) /\ sv' = MCancel(sv)
 aMCallStop        == MCallStopEn(sv) /\ sv' = MCallStop(sv)
@@ -267,9 +273,9 @@ FnReturns    == (\E e \in {"none", "estart"} : aStartFnReturn(e))
                 \/ (\E e \in {"none", "erun"} : aRunFnReturn(e))
                 \/ (\E e \in {"none", "estop"} : aStopFnReturn(e))
 
-Init == \E p \in Presents : sv = InitRec(p)
+Init == \E p \in Presents, m \in RunModes : sv = InitRec(p, m)
 
-Next == \/ aStartAsync \/ aParentCancel \/ MainInternal \/ FnReturns
+Next == \/ aStartAsync \/ aParentCancel \/ MainInternal \/ FnReturns \/ aTick
         \/ \E c \in Callers : aStopCheck(c) \/ aStopSwitch(c)
         \/ \E l \in Lis : aAddListener(l) \/ aLRecv(l) \/ aLReturn(l) \/ aLExit(l)
                           \/ aRemoveClose(l) \/ aRemoveDelete(l) \/ aRemoveWait(l)
@@ -289,7 +295,7 @@ Spec == Init /\ [][Next]_vars /\ Fairness
 
 IsPrefix(a, b) == Len(a) <= Len(b) /\ SubSeq(b, 1, Len(a)) = a
 Range(f) == {f[i] : i \in DOMAIN f}
-EvSet == { e \in States \X States \X ({"none"} \cup Errs) : TRUE }
+EvSet == States \X States \X ({"none"} \cup Errs)
 
 TypeOK ==
   /\ sv.state \in States /\ sv.failure \in {"none"} \cup Errs /\ sv.cancelFn \in {"nil", "set"}
@@ -300,7 +306,7 @@ TypeOK ==
   /\ \A l \in Lis : /\ sv.lst[l] \in {"none", "nop", "active", "removed"}
                     /\ sv.lgo[l] \in {"none", "idle", "cb", "exited"}
                     /\ sv.rpc[l] \in {"none", "closed", "deleted", "done"}
-                    /\ Range(sv.lq[l]) \subseteq EvSet
+                    /\ \A i \in DOMAIN sv.lq[l] : sv.lq[l][i] \in EvSet
   /\ \A w \in Waiters : sv.wpc[w] \in {"idle", "waiting", "woken", "returned"}
 
 \* the state only moves along the documented edges (action property)
